@@ -40,6 +40,10 @@ func init() {
 }
 
 func runC24(c *core.Ctx) {
+	c.Rule("OBJKEYS", "json: keys an object type has no field for are not dropped silently")
+	checkJSONObjectKeys(c, "OBJKEYS")
+	c.Rule("SEENCNT", "json: nullability is decided by counting objects, not key occurrences")
+	checkJSONSeenCount(c, "SEENCNT")
 	c.Rule("CSVPARSE", "csv: inference and execution parse cells with the same parsers")
 	checkCSVParserAgreement(c, "CSVPARSE")
 	c.Rule("CSVNUM", "csv: a column of integers and floats is inferred as Float")
@@ -793,4 +797,102 @@ func checkCSVParserAgreement(c *core.Ctx, rule string) {
 	sort.Strings(onlyExe)
 	c.Decide(len(onlyInf) == 0 && len(onlyExe) == 0 && len(inf) >= 3, rule, key, p.Func("datasources/csv", "(*DatasourceExecuting).Run").Decl.Pos(), len(inf)+len(exe), "schema inference and execution parse cells with the same parsers",
 		fmt.Sprintf("schema inference parses cells with %v where execution uses %v: a cell the one accepts and the other rejects (`+5`: strconv.ParseInt accepts it, fastfloat.ParseInt64 does not) makes the file unreadable against its own schema, or moves the cell into another alternative of the column's type", onlyInf, onlyExe))
+}
+
+// checkJSONObjectKeys (OBJKEYS): an object value is converted field by field of the inferred object type. Keys of the
+// JSON object that the type has no field for are not looked at by that loop; if nothing else looks at them, a value
+// that cannot be represented in the inferred schema (a field that first appears after the preview) is silently
+// truncated instead of reported. The object arm must inspect the object's own keys (Visit / Len) and be able to
+// answer "does not match".
+func checkJSONObjectKeys(c *core.Ctx, rule string) {
+	p := c.Prog
+	fn := p.Func("datasources/json", "getOctoSQLValue")
+	key := "datasources/json.getOctoSQLValue/object keys the type does not know"
+	if fn == nil {
+		c.Unknown(rule, key, 0, "anchor not found")
+		return
+	}
+	var arm *ast.CaseClause
+	ast.Inspect(fn.Decl.Body, func(n ast.Node) bool {
+		if cc, ok := n.(*ast.CaseClause); ok {
+			for _, e := range cc.List {
+				if strings.HasSuffix(core.ExprStr(e), "TypeIDStruct") {
+					arm = cc
+				}
+			}
+		}
+		return true
+	})
+	if arm == nil {
+		c.Unknown(rule, key, fn.Decl.Pos(), "the object arm was not found")
+		return
+	}
+	looks := false
+	info := fn.Info()
+	ast.Inspect(arm, func(n ast.Node) bool {
+		call, ok := n.(*ast.CallExpr)
+		if !ok {
+			return true
+		}
+		callee := p.CalleeName(info, call)
+		if strings.HasSuffix(callee, "fastjson.(*Object).Visit") || strings.HasSuffix(callee, "fastjson.(*Object).Len") {
+			looks = true
+		}
+		return true
+	})
+	c.Decide(looks, rule, key, arm.Pos(), 1, "the object's own keys are inspected",
+		"the object arm only looks up the fields of the inferred type (obj.Get per field) and never at the object's own keys: {\"a\":150,\"b\":\"important\"} read against the type {a: Float} silently becomes {\"a\":150} — the row cannot be represented in the inferred schema and must be reported")
+}
+
+// checkJSONSeenCount (SEENCNT): a field missing from some previewed object must be inferred nullable; that is decided
+// by comparing a per-key count with the number of previewed objects, so the count has to count *objects having the
+// key*: a key repeated inside one object ({"tag":"a","tag":"b"}) must be counted once.
+func checkJSONSeenCount(c *core.Ctx, rule string) {
+	p := c.Prog
+	fn := p.Func("datasources/json", "Creator")
+	key := "datasources/json.Creator/objects having the key are counted once"
+	if fn == nil {
+		c.Unknown(rule, key, 0, "anchor not found")
+		return
+	}
+	n, guarded := 0, 0
+	core.WalkStack(fn.Decl.Body, func(nd ast.Node, stack []ast.Node) bool {
+		inc, ok := nd.(*ast.IncDecStmt)
+		if !ok || inc.Tok != token.INC {
+			return true
+		}
+		ix, ok := inc.X.(*ast.IndexExpr)
+		if !ok || !strings.Contains(strings.ToLower(core.ExprStr(ix.X)), "count") {
+			return true
+		}
+		n++
+		// counted once per object: an earlier statement of the same callback returns for a key already met in this
+		// object, or the increment sits under such a test
+		for i := len(stack) - 1; i >= 0; i-- {
+			switch b := stack[i].(type) {
+			case *ast.IfStmt:
+				guarded++
+				return true
+			case *ast.BlockStmt:
+				for _, st := range b.List {
+					if st.Pos() >= inc.Pos() {
+						break
+					}
+					if is, ok := st.(*ast.IfStmt); ok {
+						for _, s2 := range is.Body.List {
+							if _, isRet := s2.(*ast.ReturnStmt); isRet {
+								guarded++
+								return true
+							}
+						}
+					}
+				}
+			case *ast.FuncLit:
+				return true
+			}
+		}
+		return true
+	})
+	c.Decide(n >= 1 && guarded == n, rule, key, fn.Decl.Pos(), n, "a key repeated within one object is counted once",
+		"the per-key count that is compared with the number of previewed objects is incremented for every occurrence of the key: {\"id\":1,\"tag\":\"a\",\"tag\":\"b\"} counts tag twice, which hides that {\"id\":2} has no tag — the column is inferred non-nullable and the datasource then rejects a row it previewed")
 }
